@@ -79,13 +79,19 @@ func (*UDPHandler) Handle(cx *layer4.Connection, _ layer4.Handler) error {
 	switch mode {
 	case "readk":
 		bufSize = 2
-	case "small":
+	case "small", "part":
 		bufSize = 1
 	}
 	buf := make([]byte, bufSize)
 	got := 0
 	for {
-		if mode == "never" || (mode == "readk" && got >= k) {
+		if mode == "never" || (mode == "readk" && got >= k) || (mode == "part" && got >= 1) {
+			// (part: returns with the rest of its first datagram unread, so that the connection is
+			// closed - by the handler's return and by the deferred close - holding a partly
+			// consumed packet)
+			if mode == "part" {
+				cx.Close()
+			}
 			return nil
 		}
 		n, err := cx.Read(buf)
@@ -222,7 +228,12 @@ func check(x *explore.Exec, sc *Scn, r *result) {
 			if ended[e.Assoc] {
 				x.Fail("deliver-after-end", "association a%d received %q after it had ended; %s", e.Assoc, e.Data, desc())
 			}
-			if sc.Mode != "small" {
+			if sc.Mode == "part" {
+				// the one byte read is the first byte of a datagram of this client
+				if want := clients[e.Data[0]]; want != client[e.Assoc] {
+					x.Fail("cross-talk", "association a%d of client %s read %q, the beginning of another client's datagram; %s", e.Assoc, client[e.Assoc], e.Data, desc())
+				}
+			} else if sc.Mode != "small" {
 				if want := clients[e.Data[0]]; want != client[e.Assoc] {
 					x.Fail("cross-talk", "datagram %q of client %s was delivered to association a%d of client %s; %s", e.Data, want, e.Assoc, client[e.Assoc], desc())
 				}
@@ -272,6 +283,9 @@ func check(x *explore.Exec, sc *Scn, r *result) {
 	}
 	for a, ds := range delivered {
 		all := perClient[client[a]]
+		if sc.Mode == "part" {
+			continue
+		}
 		if sc.Mode == "small" {
 			// chunks of 2 bytes: concatenation must be a contiguous run of the arrivals
 			joined := strings.Join(ds, "")
@@ -399,6 +413,20 @@ func scenarios(tier string, yield func(any) bool) {
 		// read to the end, bursts that queue up before the handler reads, two clients
 		modes = []Scn{{Mode: "echo"}, {Mode: "small"}, {Mode: "readk", K: 2}}
 		scripts = []string{"A", "AA", "AB", "ABA", "AqA", "AAAAAAA"}
+	}
+	if os.Getenv("VERIF_C09_SUBSET") == "xtalk" {
+		// as the datagram part of C08: two clients whose datagrams are in flight together
+		modes = []Scn{{Mode: "echo"}, {Mode: "readk", K: 2}}
+		scripts = []string{"AB", "ABA", "ABAB", "AAB"}
+	}
+	if os.Getenv("VERIF_C09_SUBSET") != "stream" {
+		// a handler that leaves a datagram partly read and closes, then other clients' datagrams
+		// queue up before their handlers run (three clients)
+		for _, s := range []string{"AqBC", "AqBCA", "AABC", "AqBqC"} {
+			if !yield(&Scn{Mode: "part", Script: s}) {
+				return
+			}
+		}
 	}
 	for _, s := range scripts {
 		for _, m := range modes {
